@@ -88,6 +88,7 @@ func checkCase(r *kit.Run, d *Data) {
 	okOut := [16]bool{}
 	skipped := map[string]int{}
 	stats := map[string]int{}
+	nondet := false // a determinism violation makes the differential below meaningless for this data set
 	for s := 0; s < 16; s++ {
 		b, err := convert(o, s, false)
 		if err != nil {
@@ -114,27 +115,35 @@ func checkCase(r *kit.Run, d *Data) {
 
 		// determinism: same input again, and an equal input built independently
 		if b2, err := convert(o, s, false); err != nil || string(b2) != string(b) {
+			nondet = true
 			viol(s, "determinism/same-input", fmt.Sprintf("second conversion differs (err=%v):\n%s\n%s", err, b, b2))
 		}
 		if b3, err := convert(o2, s, false); err != nil || string(b3) != string(b) {
+			nondet = true
 			viol(s, "determinism/independent-copy", fmt.Sprintf("conversion of an equal input differs (err=%v):\n%s\n%s", err, b, b3))
 		}
 
 		// the input is never modified
 		for _, in := range []*osm.OSM{o, o2} {
+			part := false
 			if !reflect.DeepEqual(in.Nodes, pristine.Nodes) {
+				part = true
 				viol(s, "input-mutated/nodes", "nodes differ from the copy made before conversion")
 			}
 			if !reflect.DeepEqual(in.Ways, pristine.Ways) {
+				part = true
 				viol(s, "input-mutated/ways", "ways differ from the copy made before conversion")
 			}
 			if !reflect.DeepEqual(in.Relations, pristine.Relations) {
+				part = true
 				viol(s, "input-mutated/relations", "relations differ from the copy made before conversion")
 			}
-			if !reflect.DeepEqual(in, pristine) {
-				viol(s, "input-mutated/osm", "osm.OSM differs from the copy made before conversion")
+			if part {
+				continue
 			}
-			if x, err := extract(in, d.Name, d.Family); err != nil || !reflect.DeepEqual(x, pristineX) {
+			if !reflect.DeepEqual(in, pristine) {
+				viol(s, "input-mutated/osm", "osm.OSM differs from the copy made before conversion (outside nodes, ways, relations)")
+			} else if x, err := extract(in, d.Name, d.Family); err != nil || !reflect.DeepEqual(x, pristineX) {
 				viol(s, "input-mutated/fields", fmt.Sprintf("read-back of the input differs (err=%v)", err))
 			}
 		}
@@ -148,10 +157,29 @@ func checkCase(r *kit.Run, d *Data) {
 		canon[s] = marshalCanon(v)
 	}
 
+	if nondet {
+		for s := range okOut {
+			okOut[s] = false
+		}
+	}
+
 	// explicit false options are the same as no options
 	if okOut[0] {
 		if b, err := convert(o, 0, true); err != nil || string(b) != string(outs[0]) {
-			viol(0, "option-differential/explicit-false", fmt.Sprintf("all options false differs from no options (err=%v)", err))
+			// tell an option effect from plain non-determinism before blaming the options
+			for i := 0; i < 8 && !nondet; i++ {
+				if b2, err := convert(o, 0, false); err != nil || string(b2) != string(outs[0]) {
+					nondet = true
+				}
+			}
+			if nondet {
+				viol(0, "determinism/same-input", "repeated conversions of the same input differ")
+				for s := range okOut {
+					okOut[s] = false
+				}
+			} else {
+				viol(0, "option-differential/explicit-false", fmt.Sprintf("all options false differs from no options (err=%v)", err))
+			}
 		}
 	}
 
